@@ -32,8 +32,21 @@ two warn exits, fork asserts, branch fork / sole reader / warn).
   drives the destination pin, that fork has one reader, and it is the signal fork itself (sole line) or a branch fork fed by the
   signal fork of the origin pin; `iopath_lands_circuit`, `interconnect_lands_circuit` — the landing theorems with these
   look-ups in place of the tables (the auditor's witness "a table that sends every pin to line 0" is no instance any more).
-  Not proved: completeness of `icLook` (that it finds a line whenever the declarative description is satisfiable) and
-  that `verilog.parse` builds the fork structure the description speaks of (C11's subject).
+  COMPLETENESS (Proofs/SdfCircComplete.lean): `interconnect_lookup_complete` — on a well-formed dump, whenever the place that
+  description names exists, `icLook` answers it; `interconnect_lookup_iff` (`icLook … = .line l ↔ IcPlace … l`: exactly the
+  entries that have a place land, none is lost silently), `interconnect_place_unique`, `interconnect_place_no_warn`.
+  EVERY EXIT: `icLookX` = `icLook` with the two kinds of warning kept apart (`interconnect_exit_refines`, every dump);
+  `interconnect_lookup_exits` — under `NNet.wf` and the decidable structural hypothesis `icStructOKB` (every fork has exactly one,
+  connected, input pin; lines at pins of cells come from / go to forks) four iff's: answer `l` ⇔ one-reader fork `f2` at the
+  destination and (a) it is the signal fork of the origin pin and `l` is the line leaving that pin, or (b) it is another fork
+  whose input line `l` is driven by that signal fork; warn "No branchfork" ⇔ one fork between the pins, with fan-out; warn
+  "No line to annotate pin" ⇔ an open pin; raise ⇔ a name does not resolve or the two forks differ and `f2` is not a one-reader
+  branch of `f1`.  `interconnect_lookup_exits_any`: the same for every dump, in terms of the fork decision `icFork`.
+  Array level: `interconnect_not_lost_circuit`, `interconnect_not_lost_circuitC` — an entry that is not all-zero and has a place
+  stands in the result of `interconnects` (`interconnectsC`) on that line.
+  Not proved: that `verilog.parse` builds dumps satisfying `NNet.wf` and `icStructOKB` (C11's subject) — both are evaluated by the
+  check on the dump of EVERY parsed circuit (driver `sdfc … icx`, tags `c14-hyp:wf:*`, `c14-hyp:icStruct:*`; a generated
+  well-formed netlist outside is a broken tie).
 * **Lemmas, not property theorems** (Proofs/Sdf.lean, `rfl` restatements of definitions, formerly listed here):
   `triple_empty_fields`, `triple_unit`, `norm_full`, `sanitize_single`, `sanitize_pair`.
 * **Theorem, text level** (section `text`, model `KV.SdfText` in Model/SdfText.lean = the grammar of `sdf.py` read as lark reads
@@ -52,7 +65,10 @@ two warn exits, fork asserts, branch fork / sole reader / warn).
   twice: with tables exported from the real circuit by structural search (driver `sdf`), and with the concrete look-ups fed
   with the circuit dump and `tlib.cells` (driver `sdfc`): whole arrays, the raise of `interconnects()` on a file without
   top-level block, and PER ENTRY the line index (or warn / raise) that the real loop picks, observed by running each entry alone
-  through the real `iopaths()` / `interconnects()`.
+  through the real `iopaths()` / `interconnects()`; and the EXIT per INTERCONNECT entry with the kind of warning read from
+  kyupy's log (line / "No line to annotate pin" / "No branchfork" / raise) against `icLookX` (driver `sdfc … icx`, tags
+  `c14-hyp:ic-exit:*`), incl. hand-written fan-out cases with and without branch forks, a connection the circuit does not
+  have, a port as destination.
   What remains trusted at the text level: that lark implements the grammar as the hand-written reader does (LALR tables,
   `re` semantics of the terminals) — checked by (a), not proved; `float`, NumPy assignment and the Verilog reader are
   exercised, not modelled.
@@ -628,7 +644,7 @@ theorem interconnect_exit_refines (C : NNet) (tl : PinIdx) (c1 : String) (p1 : O
 
 /-- **Every exit of the INTERCONNECT look-up** on a well-formed dump with the structure `verilog.parse` builds (`icStructOKB`,
 decidable: every fork has exactly one, connected, input pin; lines at pins of cells come from / go to forks; evaluated by the
-check on every parsed circuit, tag `hyp:icStruct:*`).  With `IcEnds … i1 q1 i2 q2` = "both cell names are in `circuit.cells`
+check on every parsed circuit, tag `c14-hyp:icStruct:*`).  With `IcEnds … i1 q1 i2 q2` = "both cell names are in `circuit.cells`
 (nodes `i1`, `i2`) and both pin names are in the library (indices `q1`, `q2`; 0 for a name without `/pin`)", `lo` = the line at
 output pin `q1` of `i1`, `li` = the line at input pin `q2` of `i2`, `f1` = reader of `lo`, `f2` = driver of `li`:
 * **answer `l`** ⇔ `f2` has one reader and (a) `f1 = f2` and `l = lo` (the signal fork of the origin pin feeds the destination
